@@ -181,6 +181,21 @@ theorem quiescent_last_on_wire_is_last_produced {α : Type} (ls : List (Flow.Lbl
     (p : α → Bool) : ((s.sent.map (·.2)).filter p).getLast? = (s.enq.filter p).getLast? := by
   rw [quiescent_wire_complete ls s h hn hq hi]
 
+/-- **the glue between the two layers**: requests enter the channel in the order in which their producers took the client
+lock (`lockSeq`), and on a live stream at quiescence that is the order on the wire. The operations of `Seq` are exactly
+those lock sections (`Watch`, `updateAndACK`: change the interest set / the version, build the request, hand it over — one
+`c.mu` section each), so `last_request_tracks_interest` — the last request *produced* for a type lists its interest set —
+speaks about the last request *received* -/
+theorem wire_follows_lock_order {α : Type} (ls : List (Flow.Lbl α)) (s : Flow.S α) (h : Flow.run cap Flow.init ls = some s)
+    (hn : Flow.NoFailure s) (hq : s.queue = []) (hi : Flow.inflight s = []) (hc : s.cmu = none) (hcl : s.closed = false) :
+    s.sent.map (·.2) = s.lockSeq :=
+  Flow.live_wire_eq_lock_order (Flow.reachable h) hn hq hi hc hcl
+
+/-- … and at any moment, not only at quiescence: what is in the channel and on its way was locked in that order -/
+theorem enqueue_order_is_lock_order {α : Type} (ls : List (Flow.Lbl α)) (s : Flow.S α) (h : Flow.run cap Flow.init ls = some s)
+    (hcl : s.closed = false) : s.lockSeq = s.enq ++ Flow.pendingLocked s :=
+  (Flow.reachable h).lock hcl
+
 /-- the channel never holds more than its capacity; a failed `Send` only ever happens on a dead stream -/
 theorem channel_bounded {α : Type} (ls : List (Flow.Lbl α)) (s : Flow.S α) (h : Flow.run cap Flow.init ls = some s) :
     s.queue.length ≤ cap ∧ ∀ r k, (r, some k) ∈ s.dropped → s.dead k = true :=
